@@ -142,7 +142,19 @@ def run_case(case):
             _, _, V = _solve_fv(fv, pf(0.0), T=Tmax)
             traces += 1
             dig.append(V)
+            # independent one-period reference (a consistently wrong solver satisfies the relational form)
+            src0, st0, ch0, fu0, P0, sh0 = family.make_source(fv)
+            m_ref = family.exec_model(family.assemble(Tmax, src0, st0, ch0, fu0))
+            r_ref = refmodel.Ref(m_ref, pf(0.0)(P0, sh0))
             for t in range(Tmax):
+                one = r_ref.to_lcm_layout(r_ref.backup(t, None), t)
+                if np.shape(one) != np.shape(V[t]) or not refmodel.close(V[t], one).all():
+                    viols.append(violation("beta0-law", "compare", "VALUE", f"beta=0, T={Tmax}: period {t} values differ from the one-period problem of that period evaluated by the reference", period=t))
+                    break
+                cnt += int(np.size(one))
+            for t in range(Tmax):
+                if viols:
+                    break
                 _, _, Vs = _solve_fv(fv, pf(0.9), T=t + 1)
                 traces += 1
                 ok = _close(V[t], Vs[t])
